@@ -431,6 +431,28 @@ def run(tier, seed):
         fails += 1
         rep.violation("decorator:class-based-state", {"why": "class-based decorator keeping its state on itself: entered %d exited %d active %d, active during the bodies %r, results %r" % (
             counting.entered, counting.exited, counting.active, counting.seen_active, outs)})
+    # a class-based decorator that defines only __aexit__ and inherits __aenter__ from ContextDecorator
+    class OnlyExit(acl.ContextDecorator):
+        def __init__(s):
+            s.exits = 0
+
+        async def __aexit__(s, *exc):
+            s.exits += 1
+            return False
+    only_exit = OnlyExit()
+
+    @only_exit
+    async def guarded(x):
+        return x + 1
+    try:
+        got_oe = [_drive(guarded(1)), _drive(guarded(2))]
+        why_oe = None if got_oe == [2, 3] and only_exit.exits == 2 else "results %r, exits %d" % (got_oe, only_exit.exits)
+    except BaseException as e:  # noqa
+        why_oe = "call failed: %r" % (e,)
+    rep.count(("only-exit-manager",), True)
+    if why_oe:
+        fails += 1
+        rep.violation("decorator:inherited-enter", {"why": "a ContextDecorator subclass defining only __aexit__: " + why_oe})
     # a class-based decorator that provides fresh single-use instances through _recreate_cm; the instances are falsy
     for falsy in (False, True):
         made = []
